@@ -72,6 +72,7 @@ type seqMachine struct {
 
 	usesPool                                 bool
 	sawUnhookThenTrigger, sawRelinkThenFire  bool
+	sawRelinkSameTarget                      bool
 	sawEventMaxExhausted, sawHookMaxExhaust  bool
 	sawSelfUnhook, sawPooledCall, sawLinkHop bool
 }
@@ -307,6 +308,13 @@ func (m *seqMachine) doLink(ev, target int) {
 	} else {
 		m.actions = append(m.actions, fmt.Sprintf("link e%d -> nil", ev))
 	}
+	if e.linkHook != nil && e.target == target {
+		// linking to the current target changes nothing: the link hook stays where it is in the target's hook order
+		e.api.LinkTo(m.events[target].api)
+		m.sawRelinkSameTarget = true
+
+		return
+	}
 	if e.linkHook != nil {
 		if e.target != target {
 			m.events[e.target].relinkedAwayFrom = true
@@ -381,6 +389,7 @@ func runEventSequential(t *rapid.T) {
 	}
 	add(m.sawUnhookThenTrigger, "unhook_then_trigger")
 	add(m.sawRelinkThenFire, "relink_then_former_target_fires")
+	add(m.sawRelinkSameTarget, "relink_to_the_same_target")
 	add(m.sawEventMaxExhausted, "event_max_exhausted")
 	add(m.sawHookMaxExhaust, "hook_max_exhausted")
 	add(m.sawSelfUnhook, "self_unhook_called")
